@@ -88,7 +88,7 @@ def model_value(model, v: Val, depth=0):
     return str(s)
 
 
-def verify_unit(reg, idx: SourceIndex, c: Contract, timeout_ms=None, seed=0, discharge_now=True) -> UnitResult:
+def verify_unit(reg, idx: SourceIndex, c: Contract, timeout_ms=None, seed=0, discharge_now=True, finite=None) -> UnitResult:
     t0 = time.time()
     res = UnitResult(c.name)
     ctx = VCtx(c.name)
@@ -98,6 +98,7 @@ def verify_unit(reg, idx: SourceIndex, c: Contract, timeout_ms=None, seed=0, dis
             raise BindingLost(f"function {c.key} not found in /repo source")
         res.sha = info.sha
         eng = Engine(reg, idx, ctx, c)
+        eng.finite = finite
         fctx = eng.make_fctx(info.module, info.qualname, info.node)
         eng.fstack.append(fctx)
         a = info.node.args
@@ -122,9 +123,10 @@ def verify_unit(reg, idx: SourceIndex, c: Contract, timeout_ms=None, seed=0, dis
             st.set_local(g, gv)
             ctx.param_vals[g] = gv
         st.set_local("_warnings", V.vint(0))
-        for p, v in vars.items():
+        from .quant import deep_wf
+        for p, v in list(vars.items()) + [(g, st.lookup(g)) for g in c.ghost_params]:
             if not isinstance(v.shape, ConcS):
-                st.pc.append(V.wf(v))
+                st.pc.append(deep_wf(eng, v))
         mod = info.module
         env0 = dict(st.levels[st.cur].vars)
         for name, text in c.requires:
@@ -216,6 +218,7 @@ def verify_unit(reg, idx: SourceIndex, c: Contract, timeout_ms=None, seed=0, dis
         res.seconds = time.time() - t0
         return res
     axioms = ctx.all_axioms()
+    res._ctx = ctx
     for ob in ctx.obligations:
         if discharge_now:
             discharge(ob, axioms, timeout_ms=timeout_ms, seed=seed)
@@ -234,3 +237,59 @@ def verify_unit(reg, idx: SourceIndex, c: Contract, timeout_ms=None, seed=0, dis
     res.seconds = time.time() - t0
     res._ctx = ctx
     return res
+
+
+def refute_finite(reg, idx, c, names, scope=3, timeout_ms=20000, seed=0):
+    """Finite-instantiation refutation search for the named obligations of unit c: the unit is
+    re-executed with every index quantifier expanded over the window -1..scope; the queries are
+    quantifier free, so `sat` yields a concrete model.  Returns {name: obligation dict}."""
+    r = verify_unit(reg, idx, c, discharge_now=False, finite=scope)
+    out = {}
+    if r.status != "ok":
+        return out
+    ctx = r._ctx
+    axioms = ctx.all_axioms() + list(ctx.finite_assumptions)
+    for ob in ctx.obligations:
+        if ob.name not in names or ob.name in out:
+            continue
+        t0 = time.time()
+        s = z3.Solver()
+        s.set("timeout", timeout_ms)
+        s.set("random_seed", seed)
+        for a in axioms:
+            s.add(a)
+        for p in ob.pc:
+            s.add(p)
+        s.add(z3.Not(ob.goal))
+        rr = s.check()
+        if rr == z3.sat:
+            m = s.model()
+            try:
+                model = {p: model_value(m, v) for p, v in ctx.param_vals.items() if not isinstance(v.shape, ConcS)}
+            except Exception as e:
+                model = {"error": repr(e)}
+            out[ob.name] = {"name": ob.name, "kind": ob.kind, "status": "refuted", "backend": "z3-finite",
+                            "seconds": round(time.time() - t0, 4),
+                            "reason": f"finite instantiation (scope {scope}): sat", "model": model}
+    return out
+
+
+def decide_unit(reg, idx, c, timeout_ms=None, seed=0, scope=3):
+    """verify_unit + refutation search for whatever stayed undecided."""
+    r = verify_unit(reg, idx, c, timeout_ms=timeout_ms, seed=seed)
+    if r.status != "ok":
+        return r
+    und = {o["name"] for o in r.obligations if o["status"] == "undecided"}
+    if und:
+        try:
+            found = refute_finite(reg, idx, c, und, scope=scope, seed=seed)
+        except Exception as e:
+            r.notes.append("finite refutation search failed: " + repr(e)[:200])
+            found = {}
+        for o in r.obligations:
+            if o["status"] == "undecided" and o["name"] in found:
+                f = found[o["name"]]
+                o.update(status="refuted", backend=f["backend"], reason=o["reason"] + "; " + f["reason"], model=f["model"])
+                o["seconds"] = round(o["seconds"] + f["seconds"], 4)
+    r.seconds = time.time() - r.seconds if False else r.seconds
+    return r
